@@ -14,6 +14,7 @@ package crypki
 //vsym:model github.com/theparanoids/crypki/proto.NewSigningClient m18NewSigningClient
 //vsym:model google.golang.org/grpc/status.Errorf m18StatusErrorf
 //vsym:model google.golang.org/grpc/status.Code m18StatusCode
+//vsym:model github.com/grpc-ecosystem/go-grpc-middleware/retry.WithPerRetryTimeout m18PerTry
 //vsym:replay none
 //vsym:expect-cover C18.wiring-ok C18.wiring-tls-error C18.wiring-validation-error C18.dial-uses-tls-options
 //vsym:bound H18_wiring: 1..2 endpoints with symbolic 1-byte host names, fixed port; config validation and TLS configuration succeed or fail; one Sign call whose RPC fails
@@ -23,7 +24,9 @@ import (
 	"context"
 	"crypto/tls"
 	"errors"
+	"time"
 
+	grpc_retry "github.com/grpc-ecosystem/go-grpc-middleware/retry"
 	pb "github.com/theparanoids/crypki/proto"
 	"google.golang.org/grpc"
 	"google.golang.org/grpc/codes"
@@ -80,6 +83,15 @@ func m18WithTC(c credentials.TransportCredentials) grpc.DialOption {
 	vSetOpaque(&d, "transport-credentials")
 	return d
 }
+var m18Timeouts []time.Duration
+
+// retry.WithPerRetryTimeout: records the deadline the retry interceptor is
+// told to put on every attempt (the interceptor itself is the library's)
+func m18PerTry(t time.Duration) grpc_retry.CallOption {
+	m18Timeouts = append(m18Timeouts, t)
+	return grpc_retry.CallOption{}
+}
+
 func m18WithUI(f grpc.UnaryClientInterceptor) grpc.DialOption {
 	var d grpc.DialOption
 	vSetOpaque(&d, "unary-interceptor")
@@ -118,6 +130,14 @@ func H18_wiring() {
 	}
 	conf := SignerConfig{TLSClientKeyFile: "key.pem", TLSClientCertFile: "cert.pem", TLSCACertFiles: []string{"ca1.pem", "ca2.pem"},
 		CrypkiEndpoints: hosts, CrypkiPort: 4443}
+	// the per-try deadline: unset (the documented default of five seconds) or an arbitrary positive duration
+	perTry := 5 * time.Second
+	if vChoose(2, "per-try-timeout-configured") == 1 {
+		perTry = time.Duration(vNondetI64("per-try-timeout"))
+		vAssume(perTry > 0)
+		conf.PerTryTimeout = perTry
+	}
+	m18Timeouts = nil
 	s, err := NewSigner(conf)
 	if m18ValidateFails {
 		vAssert(err != nil && s == nil, "C18.invalid-configuration-is-refused")
@@ -160,6 +180,10 @@ func H18_wiring() {
 	for i := 0; i < ne && i < len(s.Endpoints()); i++ {
 		vAssert(vEqString(s.Endpoints()[i], hosts[i]+":4443"), "C18.endpoint-is-host-colon-port")
 	}
+	// an endpoint that stalls is given up after the configured per-try
+	// deadline, so that the next endpoint is still reached: the retry
+	// interceptor is told exactly that deadline
+	vAssert(len(m18Timeouts) == 1 && m18Timeouts[0] == perTry, "C18.per-try-deadline-is-the-configured-one")
 	vReach("C18.wiring-ok")
 
 	// every dial of a signing call gets exactly these options and the endpoint
